@@ -225,6 +225,8 @@ type sut struct {
 	rawAddr string
 	path    string
 
+	lst    mangos.Listener // the socket's listener (control peers, hostile peers in role listen)
+	dlr    mangos.Dialer   // role dial: the dialer that connects to the hostile peer
 	hln    net.Listener // role dial: raw listener of the hostile peer
 	hpath  string
 	haddr  string // mangos address of hln
@@ -313,6 +315,7 @@ func newSUT(mk func() (mangos.Socket, error), tran, role string, maxrx int, with
 		return nil, fmt.Errorf("Listen(%s): %v", addr, err)
 	}
 	s.maddr = l.Address()
+	s.lst = l
 	if tran == "ipc" {
 		s.rawNet, s.rawAddr = "unix", s.path
 	} else {
@@ -470,6 +473,7 @@ func (s *sut) hostileConn() (*hostile, error) {
 		if err = d.Dial(); err != nil {
 			return nil, fmt.Errorf("Dial(%s): %v", s.haddr, err)
 		}
+		s.dlr = d
 	}
 	t := time.NewTimer(watchdog)
 	defer t.Stop()
@@ -488,6 +492,44 @@ func (s *sut) hostileConn() (*hostile, error) {
 	case <-t.C:
 		return nil, fmt.Errorf("the mangos dialer did not connect to %s within %v", s.haddr, watchdog)
 	}
+}
+
+// optionCallsReturn: while a connection is stuck in its handshake, option calls on the endpoint that
+// made it and on the socket still return.  It reports the first call that does not.
+func (s *sut) optionCallsReturn() string {
+	type oc struct {
+		name string
+		f    func()
+	}
+	lim := s.maxrx
+	if lim >= 1<<31 {
+		lim = 0
+	}
+	var calls []oc
+	if s.role == roleDial && s.dlr != nil {
+		calls = append(calls,
+			oc{"Dialer.GetOption(MaxRecvSize)", func() { _, _ = s.dlr.GetOption(mangos.OptionMaxRecvSize) }},
+			oc{"Dialer.SetOption(MaxRecvSize)", func() { _ = s.dlr.SetOption(mangos.OptionMaxRecvSize, lim) }},
+			oc{"Dialer.GetOption(unknown)", func() { _, _ = s.dlr.GetOption("NO-SUCH-OPTION") }})
+	}
+	if s.lst != nil {
+		calls = append(calls,
+			oc{"Listener.GetOption(MaxRecvSize)", func() { _, _ = s.lst.GetOption(mangos.OptionMaxRecvSize) }},
+			oc{"Listener.SetOption(MaxRecvSize)", func() { _ = s.lst.SetOption(mangos.OptionMaxRecvSize, lim) }})
+	}
+	calls = append(calls,
+		oc{"Socket.SetOption(MaxRecvSize)", func() { _ = s.sock.SetOption(mangos.OptionMaxRecvSize, lim) }},
+		oc{"Socket.GetOption(MaxRecvSize)", func() { _, _ = s.sock.GetOption(mangos.OptionMaxRecvSize) }})
+	for _, c := range calls {
+		done := make(chan struct{})
+		go func() { c.f(); close(done) }()
+		select {
+		case <-done:
+		case <-time.After(watchdog):
+			return c.name
+		}
+	}
+	return ""
 }
 
 // stopAccepting closes the hostile peer's listener so that a redial of mangos is refused.
